@@ -88,6 +88,23 @@ class Kinds:
             return ks.pop() if len(ks) == 1 else UNK
         if isinstance(e, (ast.List, ast.Tuple)) and not e.elts:
             return "EMPTY"
+        if isinstance(e, ast.ListComp) and len(e.generators) == 1 and isinstance(e.generators[0].iter, ast.Call) and fn_name(e.generators[0].iter) == "range" \
+                and isinstance(e.generators[0].target, ast.Name):
+            # [pos_of.get(i, default) for i in range(n)]  with  pos_of = {item: pos for pos, item in enumerate(order)} : the inversion
+            # of an order written with a dictionary -> SCORE
+            iv = e.generators[0].target.id
+            m_ = None
+            if isinstance(e.elt, ast.Call) and fn_name(e.elt) == "get" and e.elt.args and U(e.elt.args[0]) == iv and isinstance(e.elt.func.value, ast.Name):
+                m_ = e.elt.func.value.id
+            elif isinstance(e.elt, ast.Subscript) and U(e.elt.slice) == iv and isinstance(e.elt.value, ast.Name):
+                m_ = e.elt.value.id
+            if m_ is not None:
+                ds_ = [d for d in local_defs(f, m_) if not isinstance(d, tuple)]
+                if len(ds_) == 1 and isinstance(ds_[0], ast.DictComp) and len(ds_[0].generators) == 1:
+                    g_ = ds_[0].generators[0]
+                    if isinstance(g_.iter, ast.Call) and fn_name(g_.iter) == "enumerate" and isinstance(g_.target, ast.Tuple) and len(g_.target.elts) == 2 \
+                            and U(ds_[0].key) == U(g_.target.elts[1]) and U(ds_[0].value) == U(g_.target.elts[0]):
+                        return SCORE
         if isinstance(e, ast.ListComp):
             # flattening [i for ix in indices for i in ix] keeps the kind of the outer iterable
             if len(e.generators) == 2 and isinstance(e.elt, ast.Name):
